@@ -70,7 +70,7 @@ Definition is_void (tag : str) : bool := mem_str tag Tables.void_tags.
 Definition start_tag (e : el) : str :=
   [60] ++ el_tag e ++
   List.concat (map (fun nv => [32] ++ fst nv ++ [61; 34] ++ html_escape true (snd nv) ++ [34]) (el_attrs e)) ++
-  [62] ++ (if is_void (el_tag e) && starts_with_basic_ws (el_tail e) then [32] else []).
+  [62] ++ (if starts_with_basic_ws (if is_void (el_tag e) then el_tail e else el_text e) then [32] else []).
 
 Definition end_tag (e : el) : str :=
   [60; 47] ++ el_tag e ++ [62] ++ (if starts_with_basic_ws (el_tail e) then [32] else []).
